@@ -44,6 +44,7 @@ func cmdSeq(args []string) {
 	memEvery := fs.Int("memevery", 7, "every n-th history uses a memory-only store (0: never)")
 	obsCtx := fs.String("obsctx", "", "attribute unlabelled observations to this property")
 	viewBin := fs.String("viewbin", "", "path of the tools/view binary built from /repo (C09: run it on a read-only copy of the final image)")
+	only := fs.Int("only", -1, "run only history number i (histories are seeded independently: same history as in the full run)")
 	fs.Parse(args)
 	p, ok := profiles[*prof]
 	if !ok {
@@ -53,11 +54,18 @@ func cmdSeq(args []string) {
 	if err != nil {
 		fatalf("%v", err)
 	}
-	rand.Seed(*seed)
-	rng := rand.New(rand.NewSource(*seed))
 	st := stats{Driver: "seq:" + *prof, Seed: *seed, ByEvent: map[string]int{}}
 	var w *World
 	for i := 0; i < *n; i++ {
+		if *only >= 0 && i != *only {
+			continue
+		}
+		// every history has its own seed (and re-seeds the global source the
+		// library draws from): history i of a run can be re-run alone, and a
+		// run with fewer -steps is a prefix of it
+		hseed := *seed*1000003 + int64(i)
+		rand.Seed(hseed)
+		rng := rand.New(rand.NewSource(hseed))
 		u := NewUniverse(rng, *nkeys, *big && i%2 == 0)
 		mask := *cb
 		if mask < 0 {
@@ -77,7 +85,8 @@ func cmdSeq(args []string) {
 			}
 		}
 		w = nw
-		cfg := seqCfg{profile: p, steps: *steps, nkeys: *nkeys, big: *big, memOnly: *memEvery > 0 && i%*memEvery == *memEvery-1, prioMode: i % 4}
+		cfg := seqCfg{profile: p, steps: *steps, nkeys: *nkeys, big: *big, memOnly: *memEvery > 0 && i%*memEvery == *memEvery-1, prioMode: i % 4,
+			peekOnly: *prof == "lazyrefs"}
 		okh := runHistory(w, cfg)
 		w.flushOut()
 		st.Histories++
@@ -119,6 +128,8 @@ func main() {
 		cmdConc(os.Args[2:])
 	case "sched":
 		cmdSched(os.Args[2:])
+	case "iosched":
+		cmdIOSched(os.Args[2:])
 	default:
 		fmt.Fprintf(os.Stderr, "unknown command %q\n", os.Args[1])
 		os.Exit(2)
